@@ -271,8 +271,11 @@ int yr_parser_emit_pushes_for_rules(
 
   for (uint32_t i = 0; i <= compiler->current_rule_idx; i++)
   {
-    // Is rule->identifier prefixed by prefix?
-    if (strncmp(prefix, rule->identifier, strlen(prefix)) == 0)
+    // Is rule->identifier prefixed by prefix? Only the rules of the current
+    // namespace are candidates, a rule with the same identifier in some other
+    // namespace must not be counted.
+    if (rule->ns->idx == ns->idx &&
+        strncmp(prefix, rule->identifier, strlen(prefix)) == 0)
     {
       uint32_t rule_idx = yr_hash_table_lookup_uint32(
           compiler->rules_table, rule->identifier, ns->name);
